@@ -282,6 +282,22 @@ def gen_divzero_contract(rnd: random.Random, ops=None, name: str = "DivZeroTest"
             desc = (f"if(a1==0){{if((a0 {op} a1) {test}) panic}}" if guard else f"if((a0 {op} a1)=={c}) panic")
             metas.append(TestMeta(sig, 2, [sorted(set(xs + [w[0] for w in wit])), sorted(set(ys + [w[1] for w in wit]))], list(wit), desc,
                                   uses_div=True, leaves={"panic1", "ok"}))
+    # EXP with a symbolic exponent is an abstraction that refinement does NOT define: a model that still interprets it
+    # must never be marked valid, also when the same path contains abstractions that are refined
+    for vn, tests, wit, desc in [
+        ("exp_mul", [(["EXP"], 5), (["MUL"], 6)], [(2, 3), (5, 1), (3, 2)], "if(a0**a1==5){if(a0*a1==6) panic}"),   # never fails (x**y odd => x*y odd)
+        ("exp_div", [(["EXP"], 9), (["DIV"], 2)], [(3, 2), (9, 1), (2, 3)], "if(a0**a1==9){if(a0/a1==2) panic}"),   # never fails (3**2: 3/2=1; 9**1: 9/1=9)
+        ("exp_only", [(["EXP"], 8)], [(2, 3), (8, 1), (3, 2)], "if(a0**a1==8) panic"),                                # fails for (2,3), (8,1)
+    ]:
+        bad, end = lab(), lab()
+        body = []
+        for ops, c in tests:
+            body += arg(1) + arg(0) + ops + [("PUSH", c), "EQ", "ISZERO", ("PUSHL", end), "JUMPI"]
+        body += panic(1) + [("LABEL", end), "STOP"]
+        sig = f"check_{vn}(uint256,uint256)"
+        fns.append(Fn(sig, body))
+        metas.append(TestMeta(sig, 2, [sorted({w[0] for w in wit} | {0, 1, 2}), sorted({w[1] for w in wit} | {0, 1, 2})], list(wit), desc,
+                              uses_mul=True, uses_div=True, leaves={"panic1", "ok"}))
     return Contract(name, fns), metas
 
 
